@@ -329,7 +329,7 @@ func renderedAnnounce(r *Rng) string {
 	}
 	// unrelated extras
 	for i := r.Intn(3); i > 0; i-- {
-		ps = append(ps, kv{[]string{"key", "trackerid", "no_peer_id", "supportcrypto", "x", "İp", "Key", "\xff\xfe", "Info_Hash", "INFO_HASH"}[r.Intn(10)], string(r.Bytes(r.Intn(6)))})
+		ps = append(ps, kv{[]string{"key", "trackerid", "no_peer_id", "supportcrypto", "x", "İp", "Key", "\xff\xfe", "Info_Hash", "INFO_HASH", "peer_İd", "\u212aey", "İpv4", "left\u017f", "İPV6"}[r.Intn(15)], string(r.Bytes(r.Intn(6)))})
 	}
 	r2 := r.Fork()
 	// shuffle
